@@ -34,13 +34,15 @@ PROPS = {
         "assumptions": ["acceptance of every well-typed program and correctness of type equality itself are not decided"],
     },
     "C20": {
-        "rules": [runtime.rule_cint, runtime.rule_template, runtime.rule_ret, abi.rule_abi_args_only],
+        "rules": [runtime.rule_cint, runtime.rule_template, runtime.rule_ret, abi.rule_abi("x86_64"), abi.rule_abi("aarch64")],
         "text": "Runtime contract decided on the C sources and the generator: (R-CINT) interval abstract interpretation of print_i64/"
                 "println_i64 from clang's AST for the whole int64_t range - no undefined behaviour, every store inside the buffer and "
                 "a digit/'-'/newline, termination, write() covers exactly the stored characters; (R-TEMPLATE) every replace-needle of "
                 "generate_c_driver occurs exactly once in the template, argv conversion returns a 64-bit type, the argc guard "
                 "precedes the call, main returns asm_main's value; (R-ABI/ARGS) for every supported parameter count the argument "
-                "registers reach the first environment positions without a hazard; (R-RET) the result is in the ABI return register "
+                "registers reach the first environment positions without a hazard, and every live variable - the parameters of main "
+                "included - survives each call of a print primitive (the print-call classes of R-ABI: which registers are evacuated, "
+                "where to, and that they come back to the same places); (R-RET) the result is in the ABI return register "
                 "and survives the epilogue.",
         "assumptions": ["that the digit loop yields the decimal representation beyond digit range, count and order of stores (value-level) is not decided",
                         "C library (atoll, write) and the OS truncation of the exit status"],
